@@ -20,7 +20,7 @@ use read_fonts::tables::glyf::{Anchor, Glyph, PointFlags};
 use read_fonts::types::Point;
 use read_fonts::{FontData, FontRead, FontRef, TableProvider};
 
-use super::{encode_composite, flag_combo, pairs_str, rand_comp, rand_simple, Comp, F_NO_HINTING, F_SET_OVERLAPS};
+use super::{build_font, encode_composite, flag_combo, idempotence, make_ctx, pairs_str, rand_comp, rand_simple, run_request, Comp, Req, Syn, F_NO_HINTING, F_NOTDEF_OUTLINE, F_RETAIN_GIDS, F_SET_OVERLAPS};
 
 fn list_or(v: Vec<String>) -> String {
     if v.is_empty() {
@@ -434,6 +434,50 @@ pub fn run(cfg: &Config, s: &mut Session, r: &mut Rng) {
             }
             let flags = *r.pick(&[0u16, F_NO_HINTING, F_SET_OVERLAPS, F_NO_HINTING | F_SET_OVERLAPS]);
             one_record(s, &mut st, &format!("{label}#{gid}"), &bytes[a..b], flags, &map);
+        }
+    }
+    // 4. the edge records as glyphs of one font, through the whole pipeline (closure, glyf / loca, skrifa drawing):
+    //    glyphs 0..=2 simple (component targets), then one glyph per edge record; the repeat-overshoot records are left
+    //    to the unit level (known finding), truncated coordinates cannot be drawn in the original either
+    {
+        let mut glyphs: Vec<Vec<u8>> = vec![];
+        let mut rr = Rng::new(cfg.seed ^ 0xED6E);
+        for _ in 0..3 {
+            glyphs.push(rand_simple(&mut rr, 9, 2, true));
+        }
+        for (label, rec) in edge_records() {
+            if label.starts_with("repeat-overshoots") || label == "coords-truncated" || label == "zero-contours" {
+                continue;
+            }
+            glyphs.push(rec);
+        }
+        let n = glyphs.len();
+        let sf = Syn {
+            name: "syn:outline-edges".into(),
+            glyphs,
+            adv: (0..n).map(|i| 400 + 10 * i as u16).collect(),
+            lsb: (0..n).map(|i| i as i16 - 3).collect(),
+            num_long: n,
+            cmap: (3..n).map(|g| (0x41 + g as u32, g as u32)).collect(),
+            long_loca: false,
+            align: 1,
+        };
+        let data = build_font(&sf);
+        if let Some(fc) = make_ctx(sf.name.clone(), &data) {
+            let all: Vec<u32> = (0..n as u32).collect();
+            let odd: Vec<u32> = (3..n as u32).filter(|g| g % 2 == 1).collect();
+            for (gids, flags) in [
+                (all.clone(), F_NOTDEF_OUTLINE),
+                (all.clone(), F_NO_HINTING),
+                (odd.clone(), F_SET_OVERLAPS),
+                (odd.clone(), F_RETAIN_GIDS | F_NOTDEF_OUTLINE),
+                (odd, F_NO_HINTING | F_SET_OVERLAPS),
+            ] {
+                let req = Req { gids, unicodes: vec![], flags };
+                if let Some(out) = run_request(s, &fc, &req, "outline-edges", true) {
+                    idempotence(s, &fc, &req, &out);
+                }
+            }
         }
     }
     s.count(&format!("outline:records={}", st.n / 100 * 100));
